@@ -794,6 +794,17 @@ impl LiveSys {
                         return;
                     }
                 }
+                // what the pool considers a ready parent for the next window must have been announced
+                // to Votor (otherwise the node refuses the next leader's block on that parent)
+                for parent in pool.parents_ready(Slot::new(last + 1)) {
+                    if !w.mons[n].parent_ready.contains(&(last + 1, parent.clone())) {
+                        out.push(
+                            "C02:ready-parent-never-announced-to-votor".to_string(),
+                            format!("after fair completion node v{}'s pool lists the block of slot {} as a ready parent for slot {} but never emitted ParentReady for it", self.inner.nodes[n], parent.0, last + 1),
+                        );
+                        return;
+                    }
+                }
                 if pool.parents_ready(Slot::new(last + 1)).is_empty() && fin <= last {
                     out.push(
                         "C02:next-window-has-no-ready-parent".to_string(),
